@@ -31,6 +31,7 @@ SYMS = ("BTC", "LTC")
 def _replay(ctx, module, cfg, fname, syms, workers, kind):
     rp = D.StreamReplayer(fname, syms, NPROC)
     first = []
+    seen = set()
 
     def on(rec):
         if rec.get("k") != kind:
@@ -41,11 +42,16 @@ def _replay(ctx, module, cfg, fname, syms, workers, kind):
             ctx.sample({"case": _brief(rec)})
         rp.feed(rec)
         _count_class(ctx, rec)
+        if kind == "tx":
+            seen.add((rec["mode"], rec["bip144"]))
+            ctx.action("case.%s.%s" % (rec["mode"], "bip144" if rec["bip144"] else "legacy"), 1)
     r = ctx.tlc(module, cfg, workers=workers, on_record=on, keep_records=False, timeout=3000)
     fails = rp.finish()
     ctx.log("%s/%s: %d cases from TLC, %d executions on pycoin, %d disagreements" % (module, cfg, rp.records, rp.executed, len(fails)))
     if rp.records == 0:
         raise MachineryError("%s/%s printed no case" % (module, cfg))
+    if kind == "tx" and seen != {(m, b) for m in ("wire", "noseg", "ext") for b in (False, True)}:
+        raise MachineryError("vacuous replay: (mode, BIP144) classes seen: %s" % sorted(seen))
     ctx.replayed += rp.records
     ctx.case(None, rp.executed)
     ctx.action("replay." + cfg, rp.records)
@@ -222,6 +228,135 @@ def validate_traces(ctx, tjson, workers=1, quiet=False):
     return rej, acc
 
 
+# ---------------------------------------------------------------- spendable traces
+
+def _chars(t):
+    return [ord(c) for c in t]
+
+
+def _sp_json(p):
+    return {"amount": D.limbs(p[0], 4), "script": D.rle(p[1]), "hash": D.rle(p[2]), "index": D.limbs(p[3], 2),
+            "bia": D.limbs(p[4], 4), "spent": bool(p[5]), "bis": D.limbs(p[6], 4)}
+
+
+def _mag(n):
+    out = []
+    while n:
+        out.append(n & 0xFFFF)
+        n >>= 16
+    return out
+
+
+def _dict_json(d):
+    return {k: (_chars(v) if isinstance(v, str) else _mag(int(v))) for k, v in d.items()}
+
+
+def record_sp_traces(seed, count):
+    """drive pycoin's Spendable codecs on random spendables; every call is logged with what it returned"""
+    rnd = random.Random(seed)
+    out = []
+    for t in range(count):
+        Tx = D.network(SYMS[t % 2]).tx
+        blk = lambda: rnd.choice([0, 1, 252, 253, 65535, 65536, 2 ** 32 - 1, 2 ** 32, rnd.getrandbits(20), rnd.getrandbits(64)])
+        p = (_rand_u(rnd, 64), _rand_bytes(rnd, rnd.choice([0, 1, 2, 25, 34, 107, 252, 253, 254])),
+             bytes(rnd.randrange(256) for _ in range(32)) if rnd.random() < 0.8 else bytes([rnd.randrange(256)]) * 32,
+             _rand_u(rnd, 32), blk(), rnd.random() < 0.5, blk())
+        ev = []
+
+        def call(name, f, arg=None, conv=lambda x: x):
+            try:
+                r = f()
+                ev.append({"call": name, "raised": False, "arg": arg if arg is not None else [], "result": conv(r), "info": ""})
+                return r
+            except Exception as e:
+                ev.append({"call": name, "raised": True, "arg": arg if arg is not None else [], "result": [], "info": type(e).__name__})
+                return None
+        try:
+            s = D.build_sp(Tx, p)
+        except Exception as e:
+            out.append({"s": p, "ev": [{"call": "build", "raised": True, "arg": [], "result": [], "info": type(e).__name__}]})
+            continue
+        order = ["text", "dict", "bin"]
+        rnd.shuffle(order)
+        for form in order:
+            if form == "text":
+                txt = call("as_text", s.as_text, conv=_chars)
+                if txt is not None:
+                    call("from_text", lambda: D.project_sp(Tx.Spendable.from_text(txt)), _chars(txt), _sp_json)
+            elif form == "dict":
+                d = call("as_dict", s.as_dict, conv=_dict_json)
+                if d is not None:
+                    call("from_dict", lambda: D.project_sp(Tx.Spendable.from_dict(d)), _dict_json(d), _sp_json)
+            else:
+                call("as_bin", s.as_bin, conv=D.rle)
+                b = call("as_bin_spendable", lambda: s.as_bin(as_spendable=True), conv=D.rle)
+                if b is not None:
+                    call("from_bin", lambda: D.project_sp(Tx.Spendable.from_bin(b)), D.rle(b), _sp_json)
+        out.append({"s": p, "ev": ev})
+    return out
+
+
+def _sp_traces(ctx):
+    n = 300 if ctx.quick else 3000
+    trs = record_sp_traces(ctx.seed * 7919 + 77, n)
+    tj = [{"s": _sp_json(t["s"]), "ev": [{k: e[k] for k in ("call", "raised", "arg", "result")} for e in t["ev"]]} for t in trs]
+
+    def validate(tjson):
+        fd, path = tempfile.mkstemp(prefix="vf-c07-sptraces-", suffix=".json")
+        with os.fdopen(fd, "w") as f:
+            json.dump(tjson, f)
+        try:
+            r = ctx.tlc("Trace_Spendable", "Trace_Spendable", workers=4, env={"TRACE_FILE": path}, count=False, timeout=3000)
+        finally:
+            os.unlink(path)
+        loaded = [rec["n"] for rec in r.records if rec.get("k") == "loaded"]
+        if not r.ok or loaded != [len(tjson)]:
+            raise MachineryError("spendable trace run inconsistent (sent %d, TLC loaded %s): %s" % (len(tjson), loaded, r.raw_tail[-5:]))
+        prog, done = {}, set()
+        for rec in r.records:
+            if rec.get("k") == "prog":
+                prog[rec["tid"] - 1] = max(prog.get(rec["tid"] - 1, 0), rec["l"])
+                if rec["done"]:
+                    done.add(rec["tid"] - 1)
+        return {i: prog.get(i, 0) for i in range(len(tjson)) if i not in done}
+    bad = validate(tj)
+    ctx.case(None, sum(len(t["ev"]) for t in trs))
+    # a trace stops at the first call the spec does not allow; the calls after it are re-validated on their own
+    # so that one known defect does not hide the rest of the trace
+    retry, owner = [], []
+    for i, matched in sorted(bad.items()):
+        t = trs[i]
+        e = t["ev"][matched]
+        what = "exc=" + e["info"] if e["raised"] else "result-differs"
+        ctx.fail("C07|trace|spendable|%s|%s" % ("as_bin(as_spendable=True)" if e["call"] == "as_bin_spendable" else e["call"], what),
+                 "recorded Spendable run is not a behaviour of Spendable.tla: call #%d %s -> %s on %s" % (matched + 1, e["call"], what, D._short(t["s"])),
+                 {"s": D._short(t["s"]), "calls": [(x["call"], x["raised"], x["info"]) for x in t["ev"]], "failed_at": matched})
+        rest = tj[i]["ev"][matched + 1:]
+        if rest:
+            retry.append({"s": tj[i]["s"], "ev": rest})
+            owner.append((i, matched + 1))
+    bad2 = validate(retry) if retry else {}
+    for j, matched in sorted(bad2.items()):
+        i, off = owner[j]
+        e = trs[i]["ev"][off + matched]
+        what = "exc=" + e["info"] if e["raised"] else "result-differs"
+        ctx.fail("C07|trace|spendable|%s|%s" % ("as_bin(as_spendable=True)" if e["call"] == "as_bin_spendable" else e["call"], what),
+                 "recorded Spendable run is not a behaviour of Spendable.tla: %s -> %s on %s" % (e["call"], what, D._short(trs[i]["s"])), None)
+    ctx.traces += len(trs) - len(bad)
+    ctx.extra["spendable_traces"] = {"recorded": len(trs), "fully_accepted": len(trs) - len(bad),
+                                     "accepted_after_skipping_the_failing_call": len(retry) - len(bad2)}
+    ctx.sample({"spendable_trace": {"s": D._short(trs[0]["s"]), "calls": [(x["call"], x["raised"]) for x in trs[0]["ev"]]}})
+    # binding self-test: one character of a logged text / one limb of a parsed amount
+    g = next(t for t in tj if t["ev"] and t["ev"][0]["call"] == "as_text" and not t["ev"][0]["raised"])
+    g = {"s": g["s"], "ev": g["ev"][:2]}
+    b1 = copy.deepcopy(g)
+    b1["ev"][0]["result"][-1] ^= 1
+    b2 = copy.deepcopy(g)
+    b2["ev"][1]["result"]["amount"][0] ^= 1
+    bad = validate([g, b1, b2])
+    _selftest(ctx, "spendable_trace_rejects_corrupted_field", set(bad) == {1, 2})
+
+
 def _ground_truth(ctx):
     """R2: the spec parses / re-serialises real transactions byte for byte before it judges pycoin."""
     vec = [v for v in json.load(open(os.path.join(REPO, "tests/btc/data/tx_valid.json"))) if len(v) == 3]
@@ -344,9 +479,16 @@ def run(ctx):
     # 1. lemmas of the byte layer
     if not only or "bytes" in only:
         ctx.tlc("MC_Bytes", "MC_Bytes", workers=4, coverage=not q)
+    if not q and (not only or "lemmas" in only):
+        # every non-terminal parser state has a successor (ENABLED), on the quick grid
+        ctx.tlc("MC_TxWireReplay", "MC_TxWireReplay_lemmas", workers=W, timeout=3000)
     # 2. fidelity of the spec (machinery error if it fails)
     if not only or "fidelity" in only:
         _ground_truth(ctx)
+    # teeth of the model itself: a serialiser that forgets empty witness items must violate the round-trip lemma
+    if not only or "modelteeth" in only:
+        r = ctx.tlc("MC_TxWireReplay", "MC_TxWireReplay_bug", workers=4, expect_ok=False, count=False, timeout=1200)
+        ctx.selftest("model_rejects_serialiser_dropping_empty_witness_items", (not r.ok) and r.violated in ("RoundTrip", "NoFail"))
     # 3. spec -> code
     if not only or "tx" in only:
         first, _ = _replay(ctx, "MC_TxWireReplay", "MC_TxWireReplay_q" if q else "MC_TxWireReplay_t", "check_tx_record", SYMS, W, "tx")
@@ -369,4 +511,24 @@ def run(ctx):
     # 4. code -> spec
     if not only or "traces" in only:
         _traces(ctx)
+    if not only or "sptraces" in only:
+        _sp_traces(ctx)
     ctx.exhaustive = True
+
+
+def replay(ctx, obj):
+    """./check C07 --replay FILE : re-run exactly the failing case recorded in a replay file"""
+    d = obj.get("detail") or {}
+    case = d.get("case")
+    if not case:
+        print(json.dumps(obj, indent=1)[:4000])
+        print("(a recorded trace, not an enumerated case: the record above is the failing run)")
+        return
+    f = D.check_tx_record if case.get("k") == "tx" else D.check_sp_record
+    fails = f(case, d.get("sym", "BTC"))
+    print("case: %s" % json.dumps(_brief(case))[:3000])
+    for key, what, detail in fails:
+        print("  disagreement: %s\n    %s" % (key, what))
+        ctx.fail(key, what, detail)
+    if not fails:
+        print("  the implementation now agrees with the specification on this case")
